@@ -50,7 +50,9 @@ EXPLANATION = ("Property theorems for all trees, contents, names, filters and ch
                "string exactly; upload = prune (mutual structural induction); download, transcribed separately, = upload; "
                "path-by-path characterisation; no filter => identity; a transfer onto ANY destination = the pruned source laid "
                "over it (files replaced whatever their size/age, directories merged, type conflicts as OSErrors), the last "
-               "transfer wins; default chunk sizes regenerated from the source are >= 1. NOT counted as property theorems "
+               "transfer wins; default chunk sizes regenerated from the source are >= 1. Harness-level metamorphic relation (not a "
+               "theorem: the model's input is the tree, not how its path is spelt): the result does not depend on the spelling "
+               "of the source / destination path. NOT counted as property theorems "
                "(one-step unfoldings, kept in Files/Lemmas.lean): invalid_top_level, top_level_not_filtered.")
 
 CHUNKS = [1, 2, 7, 64000]
@@ -415,15 +417,19 @@ class Rig:
             os.mkdir(dst)
         filt = FILTERS[case["filter"]]
         kw = {} if case["chunk"] is None else dict(chunk_size=case["chunk"])      # None: the function's own default
+        # the paths as the caller spells them (the tree transferred must not depend on the spelling)
+        src_is_dir = os.path.isdir(src)
+        src_arg = spell(src, case.get("src_spelling"), src_is_dir, base)
+        dst_arg = spell(dst, case.get("dst_spelling"), src_is_dir, base)
         try:
             if case["direction"] == "upload":
-                classic.upload(self.conn, src, dst, filter=filt, ignore_invalid=case["ignore_invalid"], **kw)
+                classic.upload(self.conn, src_arg, dst_arg, filter=filt, ignore_invalid=case["ignore_invalid"], **kw)
             elif case["direction"] == "download":
-                classic.download(self.conn, src, dst, filter=filt, ignore_invalid=case["ignore_invalid"], **kw)
+                classic.download(self.conn, src_arg, dst_arg, filter=filt, ignore_invalid=case["ignore_invalid"], **kw)
             elif case["direction"] == "upload_file":
-                classic.upload_file(self.conn, src, dst, **kw)
+                classic.upload_file(self.conn, src_arg, dst_arg, **kw)
             else:
-                classic.download_file(self.conn, src, dst, **kw)
+                classic.download_file(self.conn, src_arg, dst_arg, **kw)
         except Exception as ex:  # noqa
             out = ("err", type(ex).__name__)
         else:
@@ -471,8 +477,11 @@ def run_history(rig, hist):
             before = read_tree(dst)
             kw = {} if st["chunk"] is None else dict(chunk_size=st["chunk"])
             fn = classic.upload if hist["direction"] == "upload" else classic.download
+            src_is_dir = os.path.isdir(src)
             try:
-                fn(rig.conn, src, dst, filter=FILTERS[st["filter"]], ignore_invalid=False, **kw)
+                fn(rig.conn, spell(src, st.get("src_spelling"), src_is_dir, base),
+                   spell(dst, st.get("dst_spelling"), src_is_dir, base), filter=FILTERS[st["filter"]],
+                   ignore_invalid=False, **kw)
             except Exception as ex:  # noqa
                 res = ("err", type(ex).__name__)
             else:
@@ -616,6 +625,34 @@ def show_diff(want, res):
     return "wrong at " + "; ".join(bad[:4])
 
 
+SPELLINGS = ["plain", "trail", "double", "dot", "rel", "linkparent", "trail+double"]
+
+
+def spell(path, how, is_dir, base):
+    """another spelling of the same path: a trailing separator (directories only), doubled separators, a './' component,
+    a path relative to the working directory, a path through a symbolic link to the parent directory.  The tree that
+    is transferred must not depend on it."""
+    if how == "plain" or not how:
+        return path
+    out = path
+    if "linkparent" in how:
+        link = base + ".lnk"
+        if not os.path.lexists(link):
+            os.symlink(base, link)
+        out = os.path.join(link, os.path.relpath(path, base))
+    if "rel" in how:
+        out = os.path.relpath(out)
+    if "dot" in how:
+        head, tail = os.path.split(out)
+        out = os.path.join(head, ".", tail)
+    if "double" in how:
+        head, tail = os.path.split(out)
+        out = head + os.sep + os.sep + tail
+    if "trail" in how and is_dir:
+        out = out + os.sep
+    return out
+
+
 def default_chunk(direction):
     """the default chunk_size of the live function (what a call without chunk_size uses)"""
     import inspect
@@ -712,6 +749,20 @@ def boundary_cases():
         # a filter object that is falsy
         out.append(dict(direction=d, chunk=7, filter="Z", ignore_invalid=False, tree=odd))
         out.append(dict(direction=d, chunk=1, filter="Z", ignore_invalid=True, tree=("D", [("a", ("F", b"1")), ("d", ("D", []))])))
+    # the same transfer with the source / destination path spelt differently: trailing separator, doubled separators,
+    # './', relative, through a symlinked parent - files and trees with sub-directories, both directions
+    deep = ("D", [("top.txt", ("F", b"top")), ("sub", ("D", [("in.txt", ("F", b"in")), ("deeper", ("D", [("leaf", ("F", b"leaf"))])),
+                                                         ("empty", ("D", []))])), ("b.tmp", ("F", b"tmp"))])
+    for d in ("upload", "download"):
+        for sp in SPELLINGS[1:]:
+            out.append(dict(direction=d, chunk=7, filter="N", ignore_invalid=False, tree=deep, src_spelling=sp))
+            out.append(dict(direction=d, chunk=7, filter=F_TMP, ignore_invalid=False, tree=deep, dst_spelling=sp))
+            out.append(dict(direction=d, chunk=None, filter="N", ignore_invalid=False, tree=deep, src_spelling=sp,
+                            dst_spelling=sp, dest_exists=True))
+            out.append(dict(direction=d, chunk=2, filter="N", ignore_invalid=False, tree=("F", b"a single file"),
+                            src_spelling=sp, dst_spelling=sp))
+            out.append(dict(direction=d + "_file", chunk=2, filter="N", ignore_invalid=False, tree=("F", b"file fn"),
+                            src_spelling=sp, dst_spelling=sp))
     # names colliding under temp-name schemes, both creation orders, both directions
     for d in ("upload", "download"):
         for rev in (False, True):
@@ -758,12 +809,16 @@ def gen_case(r):
     c = r.choice(CHUNKS)
     tree = gen_tree(r, r.range(1, 4), c, [3], force_dir=r.chance(5, 6))
     return dict(direction=r.choice(["upload", "download"]), chunk=c, filter=r.choice(sorted(FILTERS)),
-                ignore_invalid=r.chance(1, 2), tree=tree, dest_exists=r.chance(1, 5) and tree[0] == "D")
+                ignore_invalid=r.chance(1, 2), tree=tree, dest_exists=r.chance(1, 5) and tree[0] == "D",
+                src_spelling=r.choice(SPELLINGS) if r.chance(1, 2) else None,
+                dst_spelling=r.choice(SPELLINGS) if r.chance(1, 3) else None)
 
 
 def case_desc(case, listed=None):
-    return "%s chunk=%s filter=%s ignore_invalid=%s dest_exists=%s tree=%s" % (
-        case["direction"], "default" if case["chunk"] is None else case["chunk"], case["filter"], case["ignore_invalid"], bool(case.get("dest_exists")),
+    return "%s%s chunk=%s filter=%s ignore_invalid=%s dest_exists=%s tree=%s" % (
+        case["direction"], "" if not (case.get("src_spelling") or case.get("dst_spelling")) else "[paths spelt src:%s dst:%s]" % (
+            case.get("src_spelling") or "plain", case.get("dst_spelling") or "plain"),
+        "default" if case["chunk"] is None else case["chunk"], case["filter"], case["ignore_invalid"], bool(case.get("dest_exists")),
         brief(listed if listed is not None else case["tree"]))
 
 
@@ -782,6 +837,9 @@ def correspondence(ctx):
               "mtime long ago / equal to the destination's / fresh; a tree, a new version of it (same-size changes, a size "
               "change, a new file), then the first version again (roll-back); seeded trees re-transferred with every file "
               "changed at equal size; each step compared with the model started from the real destination before it. "
+              "Path spellings of the source / destination argument (trailing separator, doubled separators, './', relative, "
+              "through a symlinked parent): the destination must be the same tree whatever the spelling (the model has no "
+              "path spelling: a metamorphic relation of the harness). "
               "Names: accents, CJK, astral, newline, tab, leading/trailing blank, lone surrogates (undecodable bytes) on files and "
               "directories, transported as code points; symbolic links to a file / a directory (followed), a link cycle; a "
               "falsy callable as filter; a file where a directory is needed and the reverse (FileExistsError / "
@@ -792,7 +850,7 @@ def correspondence(ctx):
               "Non-trivial = at least one file or an error; distinct = distinct (direction, chunk, filter, shape of "
               "source with sizes and content class relative to the chunk, outcome).")
     r = Rng(ctx.seed).fork("c20")
-    cases = boundary_cases() + [gen_case(r) for _ in range(ctx.budget(200, 4000))]
+    cases = boundary_cases() + [gen_case(r) for _ in range(ctx.budget(150, 4000))]
     rig = Rig()
     impl, lines = [], []
     try:
@@ -800,7 +858,7 @@ def correspondence(ctx):
             out, listed = rig.run_case(case)
             impl.append((case, listed, out))
             lines.append(op_line(case, listed))
-        hists = boundary_histories() + conflict_histories() + [gen_history(r) for _ in range(ctx.budget(25, 600))]
+        hists = boundary_histories() + conflict_histories() + [gen_history(r) for _ in range(ctx.budget(15, 600))]
         hist_steps, hist_lines = [], []
         for hist in hists:
             for i, (listed, before, res) in enumerate(run_history(rig, hist)):
@@ -843,7 +901,9 @@ def correspondence(ctx):
             c.disagreements.append(dict(case=case_desc(case, listed), impl=show_brief(want), model=show_brief(got),
                                         replay=dict(kind="input", direction=case["direction"], chunk=case["chunk"],
                                                     filter=case["filter"], ignore_invalid=case["ignore_invalid"],
-                                                    dest_exists=bool(case.get("dest_exists")), tree=tree_text(case["tree"])
+                                                    dest_exists=bool(case.get("dest_exists")),
+                                                    src_spelling=case.get("src_spelling"), dst_spelling=case.get("dst_spelling"),
+                                                    tree=tree_text(case["tree"])
                                                     if len(tree_text(case["tree"])) < 20000 else None,
                                                     other_kinds=other_kinds(case["tree"]))))
             continue
@@ -949,6 +1009,7 @@ def oracle_search(ctx, corr, broken):
                 return None
             return (dict(kind="input", direction=cur["direction"], chunk=cur["chunk"], filter=cur["filter"],
                          ignore_invalid=cur["ignore_invalid"], dest_exists=bool(cur.get("dest_exists")),
+                         src_spelling=cur.get("src_spelling"), dst_spelling=cur.get("dst_spelling"),
                          tree=tree_text(cur["tree"]), other_kinds=other_kinds(cur["tree"])), msg, sig)
 
         def check_history(hist):
@@ -1014,7 +1075,8 @@ def case_from_replay(rp):
             return ("D", [(n, fix(s)) for n, s in t[1]])
         return t
     return dict(direction=rp["direction"], chunk=rp["chunk"], filter=rp["filter"], ignore_invalid=rp["ignore_invalid"],
-                dest_exists=rp.get("dest_exists", False), tree=fix(tree))
+                dest_exists=rp.get("dest_exists", False), src_spelling=rp.get("src_spelling"),
+                dst_spelling=rp.get("dst_spelling"), tree=fix(tree))
 
 
 def history_from_replay(rp):
